@@ -106,7 +106,7 @@ struct Sock {
   std::unique_ptr<AcceptorAsync> acca;
   int fd = -1;
   uint64_t user_in = 0;     // bytes / datagrams the user has obtained so far
-  std::deque<std::string> tls_sent;   // TLS: "a failed send must be retried with the same data" — the library remembers a view of it
+  std::deque<std::string> tls_sent;   // the buffer of the Send in progress (the previous one is freed)
   long long h1 = 0, h2 = 0;
   bool alive() const { return tcp || udp || acc || tcpb || udpb || tcpa || udpa || acca; }
   BufferPool *rxpool() const {
@@ -473,7 +473,9 @@ void run_simple_op0(Op const &op)
     }
 #endif
     s.tls_sent.emplace_back(static_cast<size_t>(a1), '\0');
-    while(s.tls_sent.size() > (tls ? 256u : 1u)) s.tls_sent.pop_front();   // TLS: the library keeps a view of unsent data across calls
+    // every Send comes from a fresh buffer and the previous one is freed: a retried TLS send holds the same BYTES at another
+    // address, which the library allows (SSL_MODE_ACCEPT_MOVING_WRITE_BUFFER); it must not look at the old buffer again (F12)
+    while(s.tls_sent.size() > 1u) s.tls_sent.pop_front();
     std::string &data = s.tls_sent.back();
     vos::fill(2ull * s.fd, tls ? S.plain_out[s.fd] : S.out_pos[s.fd], data.data(), data.size());
     api(opc, [&]() -> V {
